@@ -522,13 +522,36 @@ func (ck *checker) cacheMatrix(cfg *lib.Config) lib.CorrFile {
 	addPairs(first, rest, true, budget/8)
 	addPairs(rest, first, true, budget/8)
 	addPairs(rest, rest, true, budget/8)
-	addPairs(first, first, false, budget/8)
 	all := append(append([]int{}, first...), rest...)
+	// different values whose inferred types (reduced and detailed) coincide: a comparison that trusted the
+	// cached types would call them equal
+	bySig := map[string][]int{}
+	var sigs []string
+	for _, i := range all {
+		var sig string
+		guarded(func() { sig = items[i].b.PType().String() + " | " + px.DetailedValueType(items[i].b).String() })
+		if sig == "" {
+			continue
+		}
+		if _, seen := bySig[sig]; !seen {
+			sigs = append(sigs, sig)
+		}
+		bySig[sig] = append(bySig[sig], i)
+	}
+	nSame := len(prs)
+	for _, sig := range sigs {
+		if g := bySig[sig]; len(g) > 1 && len(prs)-nSame < budget/6 {
+			addPairs(g, g, false, 40)
+		}
+	}
+	ck.res.Extra["cache_matrix_unequal_pairs_with_the_same_inferred_types"] = len(prs) - nSame
+	addPairs(first, first, false, budget/8)
 	if len(prs) < budget {
 		addPairs(all, all, false, budget-len(prs))
 	}
 	st := &cacheStats{}
-	nEval, nPairsEq := 0, 0
+	nEval, nPairsEq, nFailed := 0, 0, 0
+	stride := len(prs)*len(cacheModes)/maxCases + 1
 	for pi, q := range prs {
 		x, y := items[q.i], items[q.j]
 		e0 := ck.eq[q.i].get(q.j)
@@ -563,7 +586,11 @@ func (ck *checker) cacheMatrix(cfg *lib.Config) lib.CorrFile {
 					ck.res.Nontrivial("caches " + x.text + " ~ " + y.text)
 				}
 				// M: a sample of the states, and every state on which D failed
-				if (e != e0 || (pi+mi+state)%5 == 0 || pi < 40) && len(cf.Cases) < maxCases &&
+				failed := e != e0
+				if failed {
+					nFailed++
+				}
+				if ((failed && nFailed <= 20) || (nEval%stride == (pi+mi)%stride && len(cf.Cases) < maxCases)) &&
 					x.d.inModel() && y.d.inModel() && !x.d.hasRoute() && !y.d.hasRoute() {
 					tx, ok1 := ck.cterm(x.d, vx, st)
 					ty, ok2 := ck.cterm(y.d, vy, st)
